@@ -22,7 +22,8 @@ FUNCTIONS = ["mh", "mala", "hmc", "_create_log_density_wrt_selected", "Fn.filter
 BOUNDS = {"targets": "corpus programs with continuous sites: two_normals, nested, vmapped (array-valued address via Vmap), scanned, branching (Cond), vector_site; mixed (mh only)",
           "selections": "single leaves, pairs, all, sub-calls; the mixture-indicator move (selection = the choice deciding a Cond whose own choices are observed)",
           "static kernel parameters": "step_size in {1/2, 1/4}, n_steps in {1, 2} (the API type-checks them as Python numbers: enumerated)",
-          "pre-state": "arbitrary coherent trace; all kernel noise values universally quantified"}
+          "pre-state": "arbitrary coherent trace; all kernel noise values universally quantified",
+          "NaN/inf aware groups": "mh, mala (step 1/2), hmc (step 1/2, 2 leapfrog steps) on s ~ N(1,1), y ~ N(0, s): every finite current state with s > 0, all noise values, all thresholds in (0,1)"}
 ASSUMPTIONS = ["detailed balance / invariance then follow from the Metropolis-Hastings theorem for that proposal and ratio (mathematics, not re-proved)",
                "mixture-indicator move: the Cond's own choices are observed, i.e. both stored branch values are the observed value",
                "switching a Cond that still has unobserved choices of its own is outside the claim (Cond conditions assumed equal there)"]
